@@ -176,10 +176,19 @@ let check_tick cfg ps (before : obs) (o : obs) fails =
           add "clamgr.retry.not-forgotten" (Printf.sprintf "non-permanent adapter %d still registered and inactive after %d retry passes, budget %d" inst ps.tickrun qttl)) o.dump
 
 (* one observed step through the property checker; returns (failures, stop) *)
-let check_step cfg ps evname id (o : obs) : (string * string) list * bool =
+let check_step ?(closeerr = false) cfg ps evname id (o : obs) : (string * string) list * bool =
   let fails = ref [] in
   let add k d = fails := (k, d) :: !fails in
-  if o.status = "timeout" then (add ("clamgr.deadlock." ^ evname) ("step " ^ evname ^ " did not return"); (!fails, true))
+  if o.status = "timeout" then begin
+    (* an adapter whose Close() returned an error has been stopped all the same: the step must return *)
+    add ("clamgr.deadlock." ^ evname)
+      ("step " ^ evname ^ " did not return" ^
+       (if closeerr then " (the Close() of an adapter which this step stopped returned an error)" else ""));
+    List.iter (fun (i, k) ->
+        if k = "close" && (List.mem i o.snd_ || List.mem i o.rcv_) then
+          add "clamgr.listed.not-started" (Printf.sprintf "adapter %d is still listed by Sender()/Receiver() although step %s has closed it" i evname)) o.calls;
+    (!fails, true)
+  end
   else if o.status = "panic" then begin
     (* a second Manager.Close() is outside the io.Closer contract: not judged *)
     if not (evname = "close" && ps.iclosed) then add ("clamgr.panic." ^ evname) ("Go panic in step " ^ evname);
@@ -231,7 +240,10 @@ let run_steps cfg steps =
     List.iteri (fun k s ->
         if not !stop then
           match lst s with
-          | [ev; orc; o] ->
+          | ([ev; orc; o] | [ev; orc; _; o]) as fields ->
+            let errids = (match fields with
+                | [_; _; corc; _] -> List.concat (List.mapi (fun i x -> if s_sym x = "err" then [i] else []) (lst corc))
+                | _ -> []) in
             let (evname, id) = (match lst ev with [e; i] -> (s_sym e, s_int i) | _ -> raise (Bad "ev")) in
             let orc = List.map (fun x -> outcome_of (s_sym x)) (lst orc) in
             let o = obs_of o in
@@ -245,7 +257,9 @@ let run_steps cfg steps =
             List.iter (fun (_, kd) -> tags := ("call-" ^ kd) :: !tags) o.calls;
             if List.length st1.st_reg < List.length !st.st_reg && evname = "tick" then tags := "forgotten" :: !tags;
             if o.status = "panic" then tags := (if evname = "close" && ps.iclosed then "panic-second-close" else "panic") :: !tags;
-            let (fails, halt) = check_step cfg ps evname id o in
+            let closeerr = List.exists (fun (i, kd) -> kd = "close" && List.mem i errids) o.calls in
+            if closeerr then tags := ("close-error-in-" ^ evname) :: !tags;
+            let (fails, halt) = check_step ~closeerr cfg ps evname id o in
             List.iter (fun (k, d) -> if not (List.mem k !seen) then (seen := k :: !seen; res := Propfail (k, d) :: !res)) fails;
             if halt then stop := true;
             st := st1
@@ -471,6 +485,91 @@ let conc = function
     end
   | _ -> raise (Bad "conc case")
 
+(* ---------- kind "traffic" (generator C16clamgrext): the REAL retry timer while another adapter emits status messages ----------
+   (case n traffic cfg script retry-ms msgs-per-interval n phases); adapter 0 started and talking,
+   adapter 1 pending with the scripted Start outcomes.  phases: setup = Register 0; run = Register 1,
+   then the real timer until adapter 1 is active or forgotten, status "late" when that did not
+   happen within n retry intervals (n >= 2 x attempts needed + 10); close. *)
+let traffic = function
+  | [cfg; script; retry; per; n; phases] ->
+    let cfg = cfg_of cfg in
+    let script = List.map (fun x -> outcome_of (s_sym x)) (lst script) in
+    let retry = s_int retry and per = s_int per and n = s_int n in
+    let nstarts1 st = List.length (List.filter (function CStart (i, _) -> int_of_nat i = 1 | _ -> false) st.st_log) in
+    let orc st = [ SOk; (match List.nth_opt script (nstarts1 st) with Some o -> o | None -> SOk) ] in
+    let step st ev = cm_step cfg st ev (orc st) in
+    let ps = new_pstate () in
+    let res = ref [] and tags = ref [] in
+    let st = ref cm_init in
+    let stop = ref false in
+    let b = adapter cfg 1 in
+    let qttl = z_to_int cfg.cfg_ttl in
+    List.iteri (fun k p ->
+        if not !stop then
+          match lst p with
+          | [name; o] ->
+            let name = s_sym name in
+            let o = obs_of o in
+            let st0 = !st in
+            let st1 = (match name with
+                | "setup" -> step st0 (ERegister O)
+                | "run" ->
+                  let s = ref (step st0 (ERegister (nat_of_int 1))) in
+                  for _ = 1 to max n settle_ticks do s := step !s ETick done;
+                  let s' = step !s ETick in
+                  if s'.st_reg <> !s.st_reg || s'.st_log <> !s.st_log then
+                    res := Mismatch "traffic: model not quiescent after n retry passes (generator script too long)" :: !res;
+                  !s
+                | "close" -> step st0 EClose
+                | s -> raise (Bad ("phase " ^ s))) in
+            let m = model_obs cfg st0 st1 in
+            tags := ("tr-" ^ name) :: !tags;
+            if name = "run" then begin
+              List.iter (fun (_, kd) -> tags := ("tr-call-" ^ kd) :: !tags) o.calls;
+              if List.length o.calls >= 4 then tags := "tr-4+attempts" :: !tags;
+              if o.status = "ok" then tags := (if List.exists (fun (_, i, _, _) -> i = 1) o.dump then "tr-activated" else "tr-forgotten") :: !tags
+            end;
+            (* property checker *)
+            let fails =
+              if name <> "run" then begin
+                let (f, halt) = check_step cfg ps (if name = "setup" then "reg" else "close") 0 o in
+                if halt then stop := true; f
+              end else if o.status = "late" then begin
+                stop := true;
+                let att = List.length (List.filter (fun (i, kd) -> i = 1 && kd <> "close") o.calls) in
+                [("clamgr.retry.not-at-interval",
+                  Printf.sprintf "pending adapter 1 was neither started nor forgotten within %d retry intervals of %d ms (at least 3 s): %d Start attempts [%s] while started adapter 0 emitted about %d status messages per interval"
+                    n retry att (show_calls o.calls) per)]
+              end
+              else if o.status = "timeout" then (stop := true; [("clamgr.deadlock.reg", "Register did not return")])
+              else if o.status = "panic" then (stop := true; [("clamgr.panic.reg", "Go panic")])
+              else begin
+                let fails = ref [] in
+                check_common cfg ps "traffic run" o fails;
+                let nfail = List.length (List.filter (fun (i, kd) -> i = 1 && (kd = "fr" || kd = "fn")) o.calls) in
+                if (not b.ad_perm) && nfail > qttl then
+                  fails := ("clamgr.retry.budget-exceeded", Printf.sprintf "non-permanent adapter: %d failing starts on the timer, budget %d" nfail qttl) :: !fails;
+                if b.ad_perm then begin
+                  let rec first_final l = (match l with [] -> SOk | SFailRetry :: t -> first_final t | x :: _ -> x) in
+                  if first_final script = SOk && not (started ps.ilog 1) then
+                    fails := ("clamgr.retry.permanent-gave-up", "permanent adapter not retried until its Start succeeded") :: !fails
+                end;
+                if List.exists (fun (_, _, t, _) -> t >= 0) o.dump then
+                  fails := ("clamgr.retry.not-forgotten", "inactive element left although the registry was reported stable") :: !fails;
+                ps.last <- o;
+                !fails
+              end in
+            List.iter (fun (k, d) -> res := Propfail (k, d) :: !res) fails;
+            if fails <> [] then stop := true;
+            if not !stop then
+              (match compare_obs (Printf.sprintf "traffic phase %d (%s)" k name) m o with
+               | Some d -> res := Mismatch d :: !res; stop := true
+               | None -> ());
+            st := st1
+          | _ -> raise (Bad "phase")) (lst phases);
+    if !res = [] then [Ok_ (uniq !tags)] else List.rev !res
+  | _ -> raise (Bad "traffic case")
+
 (* the runner looks up the case of every PROPFAIL line; on a badly broken tree tens of thousands of
    cases fail with the same key, so only the first [cap] per key are reported as PROPFAIL and the
    rest as (equally failing) MISMATCH lines *)
@@ -487,4 +586,7 @@ let capped h fields =
 let () =
   register "C16clamgr" "seq" (capped seq);
   register "C16clamgr" "ticker" (capped ticker);
-  register "C16clamgrconc" "conc" (capped conc)
+  register "C16clamgrconc" "conc" (capped conc);
+  register "C16clamgrext" "seqc" (capped seq);
+  register "C16clamgrext" "tickerc" (capped ticker);
+  register "C16clamgrext" "traffic" (capped traffic)
